@@ -12,7 +12,7 @@ import (
 func init() {
 	register(&Check{
 		ID: "C06", Level: "exploration", QuickSecs: 150, ThoroughSecs: 1200,
-		Rule:        "(F1) all block-free bodies over {'a','b',\"ab\",\"\",[ab],[^a],.} x {?,*,+,&,!} x seq/choice up to N nodes (quick 4, thorough 5); (F2) every single label+action decoration for N<=3; (F3) forced revisits: a rule R (every body up to 4 nodes, every single label placement, with a rule-level action, an always-failing action error, or a label-dependent predicate; for bodies up to 3 (4) nodes also INLINE: the block parenthesised behind the variable-width prefix \"a\"* - thorough also [ab]? - so that the rule starts at two offsets but the block at one) reached at one offset along two paths by the templates {R 'b' / R, &R R, R 'b' / . r:R {act}, R / . R, (R 'b' / R)*}. (F6) twins: the same labelled group (6 shapes) written twice in one grammar - under two actions of one choice, in two rules, under a lookahead and for real, inside a labelled group and alone - reached at one offset along two paths, inputs over {a,b,c}; (F5) every ordered pair of 9 terminals with the same text but different flags or kinds ('a', 'a'i, 'A'i, [a], [a]i, [^a], \"ab\", \"ab\"i, .) tried at the same offsets, inputs over {a,A,b,x}; (F4) left-recursive grammars generated with -support-left-recursion (direct, two-level tower, indirect pairs with both name orders entered through either rule, a non-recursive rule with an action called inside a discarded growth attempt and again afterwards; each also with every action returning an error). Inputs over {a,b} up to L=3 (4). All 8 combinations of Memoize, Debug, Statistics: success/failure, value and code-block errors must equal the default-option run (which itself is compared with the reference); with Memoize every (block, start offset) is invoked at most once, a census hook at the entry of parseExpr shows that no (expression node, offset) pair is evaluated twice (labeled expressions excepted) and Stats.ExprCnt <= (#expressions of the emitted grammar) x (len+1). Non-trivial = under Memoize at least one memo hit changed the number of block invocations or evaluated expressions. Plus the cross family (cross.go: every body without #{} / throw / recover, with and without -optimize-basic-latin and left recursion, predicates true / false, every action returning an error) and the option-value reuse oracle (every 4th (input, option set): the NEXT input parsed with the SAME option values must equal that input alone).",
+		Rule:        "(F1) all block-free bodies over {'a','b',\"ab\",\"\",[ab],[^a],.} x {?,*,+,&,!} x seq/choice up to N nodes (quick 4, thorough 5); (F2) every single label+action decoration for N<=3; (F3) forced revisits: a rule R (every body up to 4 nodes, every single label placement, with a rule-level action, an always-failing action error, or a label-dependent predicate; for bodies up to 3 (4) nodes also INLINE: the block parenthesised behind the variable-width prefix \"a\"* - thorough also [ab]? - so that the rule starts at two offsets but the block at one) reached at one offset along two paths by the templates {R 'b' / R, &R R, R 'b' / . r:R {act}, R / . R, (R 'b' / R)*}. (F7) every revisit template followed by a tail that looks at the current rune (!. . &. [^a] \"b\" \"\u00e9\"?), inputs over {a,b,\u00e9}; (F6) twins: the same labelled group (6 shapes) written twice in one grammar - under two actions of one choice, in two rules, under a lookahead and for real, inside a labelled group and alone - reached at one offset along two paths, inputs over {a,b,c}; (F5) every ordered pair of 9 terminals with the same text but different flags or kinds ('a', 'a'i, 'A'i, [a], [a]i, [^a], \"ab\", \"ab\"i, .) tried at the same offsets, inputs over {a,A,b,x}; (F4) left-recursive grammars generated with -support-left-recursion (direct, two-level tower, indirect pairs with both name orders entered through either rule, a non-recursive rule with an action called inside a discarded growth attempt and again afterwards; each also with every action returning an error). Inputs over {a,b} up to L=3 (4). All 8 combinations of Memoize, Debug, Statistics: success/failure, value and code-block errors must equal the default-option run (which itself is compared with the reference); with Memoize every (block, start offset) is invoked at most once, a census hook at the entry of parseExpr shows that no (expression node, offset) pair is evaluated twice (labeled expressions excepted) and Stats.ExprCnt <= (#expressions of the emitted grammar) x (len+1). Non-trivial = under Memoize at least one memo hit changed the number of block invocations or evaluated expressions. Plus the cross family (cross.go: every body without #{} / throw / recover, with and without -optimize-basic-latin and left recursion, predicates true / false, every action returning an error) and the option-value reuse oracle (every 4th (input, option set): the NEXT input parsed with the SAME option values must equal that input alone).",
 		Assumptions: []string{"E1 loader", "blocks are pure functions of text, pos and their labels by construction"},
 		Run:         runC06,
 	})
@@ -367,6 +367,35 @@ func runC06(c *ShardCtx) {
 		},
 		func() *peg.Expr { return peg.Choice(peg.Ref("R"), peg.Seq(peg.Any(), peg.Ref("R"))) },
 		func() *peg.Expr { return peg.Star(peg.Choice(peg.Seq(peg.Ref("R"), peg.Lit("b")), peg.Ref("R"))) },
+	}
+	// F7: what follows a table hit - after each revisit template a tail that looks at the CURRENT
+	// rune: !. . &. [^a] "b" "\u00e9" (a hit restores the position; the rune under it, its width and
+	// the end-of-input state must be the ones of that position), inputs ending in a two-byte rune
+	{
+		tails := []func() *peg.Expr{
+			func() *peg.Expr { return peg.Not(peg.Any()) }, func() *peg.Expr { return peg.Any() }, func() *peg.Expr { return peg.And(peg.Any()) },
+			func() *peg.Expr { return peg.Cls(true, false, "a") }, func() *peg.Expr { return peg.Lit("b") }, func() *peg.Expr { return peg.Opt(peg.Lit("\u00e9")) },
+		}
+		saved := inputs
+		inputs = peg.Inputs([]string{"a", "b", "\u00e9"}, 3)
+		nb := 2
+		if c.Thorough() {
+			nb = 3
+		}
+		for _, body := range enR.UpTo(nb) {
+			for _, tp := range templates {
+				for _, tl := range tails {
+					if c.Expired("F7") {
+						return
+					}
+					g := &peg.Grammar{Rules: []*peg.Rule{{Name: "S", Expr: peg.Action(0, peg.Label("v", peg.Seq(tp(), tl())))}, {Name: "R", Expr: peg.Action(0, body.Clone())}}}
+					peg.Renumber(g, 1)
+					peg.AssignArgs(g)
+					run(g, nil)
+				}
+			}
+		}
+		inputs = saved
 	}
 	for _, body := range enR.UpTo(4) {
 		var rbodies []*peg.Expr
